@@ -51,7 +51,7 @@ MIN_HITS = {
         'mon:finite': 400, 'mon:range': 200, 'mon:member': 200, 'mon:identity': 60, 'mon:unbiased': 80,
         'mon:tern': 100, 'mon:ternbias': 30, 'mon:drive': 40, 'mon:linear': 200, 'mon:errbound': 100,
         'mon:clientkeys': 20, 'mon:rounds': 60, 'mon:bits': 400, 'mon:zerodraw': 15, 'hook:uq': 300, 'hook:tq': 100, 'hook:rot': 200,
-        'class:zero-leaf-drive': 2, 'class:identical-clients': 10, 'coords:unbiased-offgrid': 2000,
+        'class:zero-leaf-drive': 2, 'class:identical-clients': 10, 'class:many-clients': 5, 'coords:unbiased-offgrid': 2000,
     },
     'thorough': {
         'mon:finite': 4000, 'mon:range': 2000, 'mon:member': 2000, 'mon:identity': 600, 'mon:unbiased': 800,
@@ -890,6 +890,11 @@ def run_agg(ctx, jax, jnp, C):
     shapes = struct_shapes(st)
     K = int(rng.randint(1, 6))
     identical = K >= 2 and rng.rand() < 0.35
+    many = (i % 23) == 7       # a cohort much larger than any internal key-chunk size (every kind gets its turn)
+    if many:
+      K = int(rng.randint(33, 71))
+      identical = True
+      ctx.count('class:many-clients')
     if kind == 'arith':
       levels = int([2, 3, 4, 5, 16, 17][rng.randint(6)]) if rng.rand() < 0.9 else 255
     else:
